@@ -6,31 +6,32 @@
 From Coq Require Import ZArith Reals List Bool.
 Import ListNotations.
 Require Import MV.Lib.Base MV.C19.Ops MV.C19.OpsR MV.C19.Gen MV.C19.Model.
-Require Import MV.C19.Proofs_Index MV.C19.Proofs_Bezier MV.C19.Proofs_Samplers MV.C19.Proofs_Export MV.C19.Proofs_Main.
+Require Import MV.C19.Proofs_Index MV.C19.Proofs_Counts MV.C19.Proofs_Bezier MV.C19.Proofs_Samplers MV.C19.Proofs_Export MV.C19.Proofs_Main.
 Open Scope R_scope.
 
-(* ---------------------------------------------------------------- counts *)
-Theorem C19_counts_sphere : forall radius c xs ys zs n,
-  length xs = n -> length ys = n -> length zs = n -> length (sample_sphere Rops radius c xs ys zs) = n.
-Proof. exact sample_sphere_count. Qed.
+(* ---------------------------------------------------------------- counts
+   for EVERY instance `o` of the numeric operations (R, Q, binary64): discrete facts, no real-number axiom *)
+Theorem C19_counts_sphere : forall {T} (o : ops T) radius c xs ys zs n,
+  length xs = n -> length ys = n -> length zs = n -> length (sample_sphere o radius c xs ys zs) = n.
+Proof. exact @sphere_count. Qed.
 Print Assumptions C19_counts_sphere.
 
-Theorem C19_counts_ball : forall radius c xs ys zs us n,
+Theorem C19_counts_ball : forall {T} (o : ops T) radius c xs ys zs us n,
   length xs = n -> length ys = n -> length zs = n -> length us = n ->
-  length (sample_ball Rops radius c xs ys zs us) = n.
-Proof. exact sample_ball_count. Qed.
+  length (sample_ball o radius c xs ys zs us) = n.
+Proof. exact @ball_count. Qed.
 Print Assumptions C19_counts_ball.
 
-Theorem C19_counts_box_uniform : forall pc p1 p2 n us pts,
-  sample_box Rops MUniform pc p1 p2 n us = Ok pts -> length pts = length us.
-Proof. exact box_uniform_count. Qed.
+Theorem C19_counts_box_uniform : forall {T} (o : ops T) pc p1 p2 n us pts,
+  sample_box o MUniform pc p1 p2 n us = Ok pts -> length pts = length us.
+Proof. exact @box_uniform_count_g. Qed.
 Print Assumptions C19_counts_box_uniform.
 
 (* grid mode: round(n^(1/d))^d points *)
-Theorem C19_counts_box_grid : forall pc p1 p2 n us pts, (0 <= n)%Z -> (1 <= length p1)%nat ->
-  sample_box Rops MGrid pc p1 p2 n us = Ok pts ->
+Theorem C19_counts_box_grid : forall {T} (o : ops T) pc p1 p2 n us pts, (0 <= n)%Z -> (1 <= length p1)%nat ->
+  sample_box o MGrid pc p1 p2 n us = Ok pts ->
   Z.of_nat (length pts) = (grid_res n (Z.of_nat (length p1)) ^ Z.of_nat (length p1))%Z.
-Proof. exact box_grid_count. Qed.
+Proof. exact @box_grid_count_g. Qed.
 Print Assumptions C19_counts_box_grid.
 
 (* ... where the resolution is the integer nearest to the real d-th root of n: (r-1/2)^d <= n < (r+1/2)^d *)
@@ -40,15 +41,15 @@ Theorem C19_grid_resolution_is_nearest_root : forall n d, (0 <= n)%Z -> (1 <= d)
 Proof. exact iroot_round_spec. Qed.
 Print Assumptions C19_grid_resolution_is_nearest_root.
 
-Theorem C19_counts_polyline : forall V E n chosen ts pts,
+Theorem C19_counts_polyline : forall {T} (o : ops T) V E n chosen ts pts,
   (0 <= n)%Z -> length chosen = Z.to_nat n -> length ts = Z.to_nat n ->
-  sample_polyline Rops V E n chosen ts = Ok pts -> length pts = Z.to_nat n.
-Proof. exact polyline_count. Qed.
+  sample_polyline o V E n chosen ts = Ok pts -> length pts = Z.to_nat n.
+Proof. exact @polyline_count_g. Qed.
 Print Assumptions C19_counts_polyline.
 
-Theorem C19_counts_surface : forall V F chosen us pts n, length chosen = n -> length us = n ->
-  sample_surface Rops V F chosen us = Ok pts -> length pts = n.
-Proof. exact surface_count. Qed.
+Theorem C19_counts_surface : forall {T} (o : ops T) V F chosen us pts n, length chosen = n -> length us = n ->
+  sample_surface o V F chosen us = Ok pts -> length pts = n.
+Proof. exact @surface_count_g. Qed.
 Print Assumptions C19_counts_surface.
 
 (* ---------------------------------------------------------------- in-domain, for ALL draws in their ranges *)
@@ -86,10 +87,14 @@ Theorem C19_box_grid_in_box : forall pc p1 p2 n us pts, length p2 = length p1 ->
 Proof. exact sample_box_grid. Qed.
 Print Assumptions C19_box_grid_in_box.
 
-Theorem C19_box_rejects : forall m pc p1 p2 n us,
-  (m = MOther -> sample_box Rops m pc p1 p2 n us = Err EBadMode) /\
-  (m <> MOther -> box_is_empty Rops p1 p2 = true -> sample_box Rops m pc p1 p2 n us = Err EEmptyBox).
-Proof. exact sample_box_rejects. Qed.
+Theorem C19_box_rejects : forall {T} (o : ops T) m pc p1 p2 n us,
+  (m = MOther -> sample_box o m pc p1 p2 n us = Err EBadMode) /\
+  (m <> MOther -> box_is_empty o p1 p2 = true -> sample_box o m pc p1 p2 n us = Err EEmptyBox) /\
+  (m <> MOther -> box_is_empty o p1 p2 = false -> box_pc_dim_guard (Z.of_nat (length p1)) && pc = true ->
+     sample_box o m pc p1 p2 n us = Err EDimGt3) /\
+  (forall pts, sample_box o m pc p1 p2 n us = Ok pts ->
+     m <> MOther /\ box_is_empty o p1 p2 = false /\ box_pc_dim_guard (Z.of_nat (length p1)) && pc = false).
+Proof. exact @box_rejects_g. Qed.
 Print Assumptions C19_box_rejects.
 
 (* every polyline sample is a convex combination of the end points of the edge chosen for it *)
